@@ -93,7 +93,11 @@ pub fn run_job<S: Service>(config: &Config, name: &str, job: &Value, tw: &mut Tr
         return;
     }
     let empty = Vec::new();
-    for step in job["program"].as_array().unwrap_or(&empty) {
+    // a step the world cannot execute (the real API deviated from what the program was written for, or
+    // the program is wrong) ends the program: the recorded prefix is judged, the truncation is reported
+    let mut trunc: Option<String> = None;
+    let mut done = 0u64;
+    'prog: for step in job["program"].as_array().unwrap_or(&empty) {
         let a = step["a"].as_str().unwrap_or("");
         let (o, n, x, y) = (num(step, "o"), num(step, "n"), num(step, "x"), num(step, "y"));
         let (x3, x4) = (num(step, "x3"), num(step, "x4"));
@@ -104,7 +108,8 @@ pub fn run_job<S: Service>(config: &Config, name: &str, job: &Value, tw: &mut Tr
             // open with requirements x = notifiers, y = listeners, x3 = nodes, x4 = max event id (0 = not set)
             "open" => {
                 if w.facts.contains_key(&n) {
-                    bad_program("node has the service open", step);
+                    trunc = Some("node has the service open".to_string());
+                    break 'prog;
                 }
                 if !w.nodes.contains_key(&n) {
                     w.nodes.insert(n, NodeBuilder::new().config(config).create::<S>().expect("node"));
@@ -135,13 +140,15 @@ pub fn run_job<S: Service>(config: &Config, name: &str, job: &Value, tw: &mut Tr
             }
             "close" => {
                 if n == 1 || w.facts.remove(&n).is_none() {
-                    bad_program("close", step);
+                    trunc = Some("close".to_string());
+                    break 'prog;
                 }
             }
             // x = default event id
             "cn" => {
                 if w.notifiers.contains_key(&o) || !w.facts.contains_key(&n) {
-                    bad_program("cn", step);
+                    trunc = Some("cn".to_string());
+                    break 'prog;
                 }
                 let f = &w.facts[&n];
                 let r = flat(guarded(|| {
@@ -158,14 +165,18 @@ pub fn run_job<S: Service>(config: &Config, name: &str, job: &Value, tw: &mut Tr
                 }
             }
             "dn" => {
-                let p = w.notifiers.remove(&o).unwrap_or_else(|| bad_program("dn", step));
+                let Some(p) = w.notifiers.remove(&o) else {
+                    trunc = Some("dn".to_string());
+                    break 'prog;
+                };
                 if let Err(e) = guarded(move || drop(p)) {
                     res = e;
                 }
             }
             "cl" => {
                 if w.listeners.contains_key(&o) || !w.facts.contains_key(&n) {
-                    bad_program("cl", step);
+                    trunc = Some("cl".to_string());
+                    break 'prog;
                 }
                 let f = &w.facts[&n];
                 match flat(guarded(|| f.listener_builder().create().map_err(|e| format!("{e:?}")))) {
@@ -176,14 +187,20 @@ pub fn run_job<S: Service>(config: &Config, name: &str, job: &Value, tw: &mut Tr
                 }
             }
             "dl" => {
-                let p = w.listeners.remove(&o).unwrap_or_else(|| bad_program("dl", step));
+                let Some(p) = w.listeners.remove(&o) else {
+                    trunc = Some("dl".to_string());
+                    break 'prog;
+                };
                 if let Err(e) = guarded(move || drop(p)) {
                     res = e;
                 }
             }
             // y = 0: notify() with the default id, y = 1: notify_with_custom_event_id(x)
             "nt" => {
-                let p = w.notifiers.get(&o).unwrap_or_else(|| bad_program("nt", step));
+                let Some(p) = w.notifiers.get(&o) else {
+                    trunc = Some("nt".to_string());
+                    break 'prog;
+                };
                 let r = flat(guarded(|| {
                     if y == 0 { p.notify() } else { p.notify_with_custom_event_id(EventId::new(x as usize)) }
                         .map_err(|e| format!("{e:?}"))
@@ -194,7 +211,10 @@ pub fn run_job<S: Service>(config: &Config, name: &str, job: &Value, tw: &mut Tr
                 }
             }
             "wt" => {
-                let p = w.listeners.get(&o).unwrap_or_else(|| bad_program("wt", step));
+                let Some(p) = w.listeners.get(&o) else {
+                    trunc = Some("wt".to_string());
+                    break 'prog;
+                };
                 let mut got = BTreeSet::new();
                 let r = flat(guarded(|| {
                     let mut total = 0u64;
@@ -225,8 +245,12 @@ pub fn run_job<S: Service>(config: &Config, name: &str, job: &Value, tw: &mut Tr
         tw.emit(&json!({"k": "op", "a": a, "o": o, "n": n, "x": x, "y": y, "x3": x3, "x4": x4, "res": res,
                         "cnt": cnt, "ids": ids, "nf": nf, "nl": nl, "nn": nn}));
         summary.count(a, &res);
+        done += 1;
     }
-    tw.emit(&json!({"k": "end"}));
+    if trunc.is_some() {
+        summary.truncated += 1;
+    }
+    tw.emit(&json!({"k": "end", "trunc": trunc.is_some() as u64, "why": trunc.unwrap_or_default(), "done": done}));
     let World { notifiers, listeners, mut facts, nodes } = w;
     drop(notifiers);
     drop(listeners);
